@@ -157,6 +157,50 @@ def run(ctx):
              ctx.construct(ar, extra='accepted shares of the caller'),
              '_get_accepted_resources no longer filters accepted shares of '
              'the caller', ctx.loc(ar))
+    # what is shared: exactly the accepted shares of this type for this
+    # caller, all as equalities
+    conj = []
+    for c in flt:
+        for a in ast.walk(c):
+            if isinstance(a, ast.Call) and U.call_name(a) == 'and_':
+                conj = list(a.args)
+    r1.check(len(conj) == 3 and all(
+        isinstance(x, ast.Compare) and isinstance(x.ops[0], ast.Eq)
+        for x in conj) and any(
+        U.phas(x, '___.ResourceMember.resource_type == res_type')
+        for x in conj),
+        ctx.construct(ar, extra='type, status, member as equalities'),
+        'accepted shares are not selected by equality on type, status and '
+        'member', ctx.loc(ar))
+    # dataflow of the criterion that reaches filter()
+    qc = [n for n in own_nodes(sq.node) if isinstance(n, ast.Assign) and
+          dotted(n.targets[0]) == 'query_criterion']
+    base_ = [n for n in qc if U.phas(
+        n.value, "___.or_(model.project_id == security.get_project_id(), "
+        "model.scope == 'public')") and len(n.value.args) == 2]
+    wide = [n for n in qc if n not in base_]
+    okw = len(base_) == 1 and len(wide) == 1 and U.phas(
+        wide[0].value, '___.or_(query_criterion, '
+        'model.id.in_(shared_res_ids))') and len(wide[0].value.args) == 2 \
+        and U.guarded(cfg, cfg.stmt_node(wide[0]), 'shared_res_ids', True)
+    r1.check(okw and all(norm(c.args[0]) == 'query_criterion' and
+                         len(c.args) == 1 for c in filt),
+             ctx.construct(sq, extra='criterion dataflow'),
+             'the criterion that reaches filter() is not "own OR public", '
+             'widened only by the ids of accepted shares', ctx.loc(sq))
+    sr = [n for n in own_nodes(sq.node) if isinstance(n, ast.Assign) and
+          dotted(n.targets[0]) == 'shared_res_ids']
+    src = [n for n in own_nodes(sq.node) if isinstance(n, ast.Assign) and
+           dotted(n.targets[0]) == 'shared_res']
+    oks = len(src) == 1 and U.phas(
+        src[0].value, '_get_accepted_resources(res_type)') and \
+        U.guarded(cfg, cfg.stmt_node(src[0]), 'res_type', True) and all(
+            norm(n.value) == '[]' or U.phas(
+                n.value, '[__r.resource_id for __r in shared_res]')
+            for n in sr) and len(sr) == 2
+    r1.check(oks, ctx.construct(sq, extra='shared ids'),
+             'the ids added to the criterion are not the resource ids of '
+             'the accepted shares of this resource type', ctx.loc(sq))
     # admin gate idiom: insecure may only be widened by is_admin
     for f in dbfuncs:
         for n in own_nodes(f.node):
@@ -322,6 +366,16 @@ def run(ctx):
     r4.check(okh, ctx.construct(rh),
              'hook registration no longer listens to "set" with '
              'retval=True on every subclass', ctx.loc(rh))
+    hcfg = ctx.cfg(rh)
+    for n, c in U.calls_in(hcfg, 'listen'):
+        # the only classes that may be skipped are the abstract ones
+        ga = U.guard_atoms(hcfg, n)
+        r4.check(all(t_ is False and U.phas(
+            a_, "'__abstract__' in __c.__dict__") for a_, t_ in ga),
+            ctx.construct(rh, extra='every concrete subclass'),
+            'the listener is attached under a condition other than "the '
+            'class is not abstract": %s' % [(norm(a_), t_) for a_, t_ in ga],
+            ctx.loc(rh, c))
 
     # ---- R5 cross-project listing (shared with C16.R3) -----------------------
     r5 = ctx.rule('R5', 'all_projects listing passes an admin-only rule '
